@@ -71,3 +71,8 @@ CHECKS.update({
     "C07": ("6/C07", "Every retry-condition term of depth <=2 over 15 atoms (|, &, retry_any/retry_all with 0-3 arguments, plain callables on either side) on 8 exceptions with chained causes; every stop-condition term on a 7x9x4 (attempts, elapsed, upcoming_sleep) grid; every built-in wait strategy on parameter grids x 13 attempt counts (up to 10^5, past double overflow) x 5 seeds incl. None; compared with truth tables, sums of parts and the documented bounds; seeded calls repeated with a perturbed global RNG and on a fresh instance.",
             "Sane parameters only (min<=max, non-negative). Fix e15796f repaired the OverflowError this check found.", ENUM_TECH),
 })
+
+CHECKS.update({
+    "C18": ("6/C18", "Event shapes (plain, typed, nested model, Start/Stop/InputRequired/HumanResponse events and subclasses, failure events with 12 exception kinds) x a JSON value alphabet (None, bools, ints > 2^53, floats, unicode/escape strings, nested containers depth <=2(4), marker-like keys) in dynamic fields, results and Any-typed fields x 9 channels (JsonSerializer plain/nested, EventEnvelopeWithMetadata by qualified name / by registry, EventEnvelope.parse, persisted ticks add_event / publish_event / step_result payloads / step input) through real JSON text; class, typed fields, dynamic fields, result, exception type+message compared.",
+            "Fixes f430db9 (StopEvent dropped dynamic fields) and ea5f1bd (KeyError message re-quoted) repaired the defects this check found. AddWaiter.requirements (documented as not serializable) are outside the property.", ENUM_TECH),
+})
